@@ -206,6 +206,15 @@ func (w *World) deliver(p *core.Pending) {
 			return
 		}
 		w.sched.Release(p, res)
+	case "ws":
+		w.sched.Release(p, w.decideWS(p.Data.(*wsConn)))
+	case "prune":
+		if p.Data.(pruneRef).gen != w.gen {
+			w.sched.Release(p, stopSignal{})
+			return
+		}
+		w.logf("%s", p.Key)
+		w.sched.Release(p, nil)
 	default:
 		w.harnessFail("unknown pending kind %q", p.Kind)
 		w.sched.Release(p, stopSignal{})
@@ -274,6 +283,15 @@ func (w *World) deliverBurst(pend []*core.Pending) {
 				continue // taken and never answered: the client's timeout fires
 			}
 			rels = append(rels, rel{p, res})
+		case "ws":
+			rels = append(rels, rel{p, w.decideWS(p.Data.(*wsConn))})
+		case "prune":
+			if p.Data.(pruneRef).gen != w.gen {
+				rels = append(rels, rel{p, stopSignal{}})
+			} else {
+				w.logf("%s", p.Key)
+				rels = append(rels, rel{p, nil})
+			}
 		default:
 			w.harnessFail("unknown pending kind %q", p.Kind)
 			rels = append(rels, rel{p, stopSignal{}})
@@ -362,6 +380,19 @@ func (w *World) serveHTTP(ev *httpEvent) httpResult {
 		return httpResult{err: fmt.Errorf("dial tcp %s: connection refused", ev.host)}
 	}
 	n := w.srcs[src].node
+	if ev.ws {
+		if w.faultsOn() && f.HTTPPerMille > 0 && w.st.Chance(f.HTTPPerMille, 1000, "ws-dial-fault") {
+			w.stat("fault_ws_dial_refused", 1)
+			w.stat("fault_total", 1)
+			w.logf("http %s ws-dial -> refused", ev.host)
+			if w.st.Draw(2, "ws-dial-how") == 0 {
+				return httpResult{err: fmt.Errorf("dial tcp %s: connection refused", ev.host)}
+			}
+			return httpResult{status: 503}
+		}
+		w.logf("http %s ws-dial -> 101", ev.host)
+		return httpResult{status: 101}
+	}
 	kind := hfNone
 	hk := w.httpSeen
 	w.httpSeen++
@@ -486,6 +517,7 @@ func (w *World) chainGrow(src string, k int) {
 	w.stat("chain_events", 1)
 	w.stat("chain_grow_blocks", k)
 	w.logf("grow %s +%d head=%d", src, k, n.HeadNum())
+	w.wsKick(src)
 }
 
 func (w *World) chainReorg(src string, depth, newLen int) {
@@ -510,6 +542,7 @@ func (w *World) chainReorg(src string, depth, newLen int) {
 		}
 	}
 	w.logf("reorg %s depth=%d newlen=%d head=%d", src, depth, newLen, n.HeadNum())
+	w.wsKick(src)
 }
 
 // crashRestart models process death: every connection and request of the
@@ -533,6 +566,7 @@ func (w *World) crashRestart() {
 	}
 	old := w.gen
 	w.gen++
+	w.wsCloseAll(old)
 	oldPools := w.pools
 	w.pools = nil
 	// drain: fail every parked seam event of the dead generation
@@ -552,6 +586,12 @@ func (w *World) crashRestart() {
 				progressed = true
 			case "pg":
 				w.sched.Release(p, pgDecision{v: fakepg.DropBefore})
+				progressed = true
+			case "ws":
+				w.sched.Release(p, wsDecision{close: true})
+				progressed = true
+			case "prune":
+				w.sched.Release(p, stopSignal{})
 				progressed = true
 			case "lock":
 				// grant in canonical order, one at a time
@@ -578,6 +618,7 @@ func (w *World) crashRestart() {
 		ps.inCall = false
 	}
 	w.srv.CloseOwner(fmt.Sprintf("shared#g%d", old))
+	w.srv.CloseOwner(fmt.Sprintf("prune#g%d", old))
 	for _, p := range oldPools {
 		go p.Close()
 	}
